@@ -219,3 +219,24 @@ def field_of(prog: Program, tm, name: str):
         d = dict(tm[2])
         return d.get(name, ("default",))
     return ("attr", tm, name)
+
+
+def implied_atoms(conds) -> t.List[t.Tuple[tuple, bool]]:
+    """the atomic decisions a path's branch decisions imply: `a or b` decided False gives a False and b False,
+    `a and b` decided True gives both True, `not a` flips; other decisions stay as they are.  Lets a rule ask
+    "was X checked on this path" independently of how the checks are grouped into if statements."""
+    out: t.List[t.Tuple[tuple, bool]] = []
+
+    def walk(c, v):
+        if c[0] == "unop" and c[1] == "not":
+            walk(c[2], not v)
+        elif c[0] == "bool" and ((c[1] == "or" and not v) or (c[1] == "and" and v)):
+            for x in c[2]:
+                walk(x, v)
+        elif c[0] == "call" and c[1] == ("ext", "bool") and len(c[2]) == 1:
+            walk(c[2][0], v)
+        else:
+            out.append((c, v))
+    for item in conds:
+        walk(item[0], item[1])
+    return out
